@@ -34,6 +34,29 @@ PROPS = {
         "trusted_base": ["rexile regexes of grl.rs (rule/when-then/condition splitting) are not modelled: their result is observed (the parsed Rule) and compared with ForwardSpec.compile on every case"],
         "assumptions": ["custom functions, plugins, method calls, retract, accumulate/exists/forall patterns are outside the typed core", "wall-clock timeout disabled; max_cycles default"],
     },
+    "C04": {
+        "num": 4,
+        "vo": ["Properties/C04.vo"],
+        "harness_timeout": 2400,
+        "rule": "rule files generated from the documented grammar: 0..8 rules; quoted (incl. non-ASCII, operators) and bare names, optional description strings containing attribute keywords; every attribute in every "
+                "order (salience over the i32 range incl. negatives and extremes, no-loop / lock-on-active with and without `true`, agenda-group, activation-group incl. names such as \"no-loop\" and \"salience 7\", "
+                "date-effective / date-expires); condition trees to depth 5 over the typed core of C01 with redundant parentheses; literals of every type incl. strings with GRL metacharacters (; && || { } ( ) = , // then "
+                "when rule salience, quotes of the other kind, non-ASCII) in a third of the files; action forms: assignment (literal, arithmetic, concatenation, field copy, array), +=, Log, retract($X), ActivateAgendaGroup, "
+                "ScheduleRule, CompleteWorkflow, custom function calls with 0..3 arguments; layout: blanks, tabs, line breaks between any two tokens, comment lines and trailing comments anywhere (1 file in 12 with comments "
+                "containing a closing brace or a rule header). Second stream: bare when clauses (depth to 6, metacharacter strings in half of them, arbitrary blanks and redundant parentheses) through the hook "
+                "verif_parse_when_clause, compared with the Coq model of the condition-tree parser AND with the written tree. Observed per rule: name, salience, flags, groups, dates, condition tree, action list. "
+                "non-trivial = at least one rule",
+        "level_text": "Theorems (Coq, every text): string literals are opaque to the condition splitter (whatever stands between two equal quote characters never separates conditions, at any depth, for any continuation); "
+                "parentheses protect (a text that may split at its own top level does not split once parenthesised); a top-level && / || between two non-splitting texts separates exactly there into exactly the two trimmed "
+                "texts; such texts compose. The model of parse_when_clause / split_logical_operator / the single-comparison pattern is compared with the code on every generated clause; the Coq-defined expectation exp_rule "
+                "(what was written, independent of layout by construction) is compared with the parser's output on every generated file.",
+        "level_note": "Partial: the regular expressions (rexile) that carve a file into rules and a rule into header / when / then are not modelled - their result is observed and compared with exp_rule; the tree-level "
+                "theorem parse_when (print t) = t for every condition tree is not yet proved (the three splitting lemmas it rests on are). Known findings (monitor classes 2, 3, 4): a closing brace in a string literal, "
+                "blank-then-blank in a when-clause string, a brace or rule header in a comment. The `$Obj.method(args)` action form is outside the generated grammar (the method-call pattern never matches; such "
+                "statements become custom actions). Trusted: Coq kernel; model of grl.rs after fixes 804c5fd ee6c06e b8f8cd8 f796657 389caa3 7515c16 fbc30e7 751cd5b 4ea3eb2 601e5f7 94337f6; hook 26bcb2e; harness; extraction. Axioms: none.",
+        "trusted_base": ["rexile 0.5.8 regular expressions of grl.rs: not modelled"],
+        "assumptions": ["string literals contain no quote character of their own kind (GRL has no escape sequences)", "dates in the form YYYY-MM-DD"],
+    },
     "C02": {
         "num": 2,
         "vo": ["Properties/C02.vo"],
